@@ -255,4 +255,27 @@ theorem C30_bool_binds_as_bool : (pyToSql (.bool true)).map renderVal = some "TR
     (pyToSql (.bool false)).map renderVal = some "FALSE".toList ∧ pyToSql .nonFinite = none := by
   decide +kernel
 
+/-- **Read-back of integers.** Every integer of the column's range — both endpoints included —
+bound through `?` into a SMALLINT / INTEGER / BIGINT column is stored as itself.  (i64::MIN takes
+the `Numeric` path: `-9223372036854775808` is a minus sign applied to a literal too large for an
+i64, and the range test of `coerce_value` must include the lower bound.) -/
+theorem C30_int_roundtrip (ty : IntTy) (n : Int) (hlo : ty.min ≤ n) (hhi : n ≤ ty.max) :
+    bindReadInt ty n = .ok n := by
+  cases ty <;> simp only [IntTy.min, IntTy.max] at hlo hhi <;>
+    simp only [bindReadInt, parseBound] <;> split <;> simp only [coerceInt] <;>
+    first
+      | rfl
+      | (rw [if_pos (by omega)]; try (rw [if_pos (by omega)]))
+      | omega
+
+/-- outside the range of a SMALLINT column the value is refused, not wrapped -/
+theorem C30_smallint_out_of_range (n : Int) (h : n < -32768 ∨ 32767 < n)
+    (h64 : -9223372036854775808 ≤ n ∧ n ≤ 9223372036854775807) :
+    bindReadInt .smallint n = .error .outOfRange := by
+  simp only [bindReadInt, parseBound]
+  split <;> simp only [coerceInt] <;> rw [if_neg (by omega)]
+
+example : bindReadInt .bigint (-9223372036854775808) = .ok (-9223372036854775808) :=
+  C30_int_roundtrip _ _ (by decide) (by decide)
+
 end VibeProof.C30
